@@ -2,8 +2,18 @@
 import importlib
 import json
 import logging
+import os
+import signal
 import sys
 import warnings
+
+
+class ItemTimeout(BaseException):
+    """one concrete run exceeded its deadline (VERIF_ITEM_TIMEOUT seconds, default 300): reported for that item only"""
+
+
+def _alarm(signum, frame):
+    raise ItemTimeout()
 
 
 def main(inp, outp):
@@ -13,8 +23,15 @@ def main(inp, outp):
     with open(inp) as f:
         items = json.load(f)
     out = []
+    deadline = int(os.environ.get('VERIF_ITEM_TIMEOUT', '300'))
+    try:
+        signal.signal(signal.SIGALRM, _alarm)
+    except (ValueError, AttributeError):  # not the main thread / no SIGALRM: no per-item deadline
+        deadline = 0
     for it in items:
         try:
+            if deadline:
+                signal.alarm(int((it.get('opts') or {}).get('replay_timeout_s', deadline)))
             mod = importlib.import_module(it['module'])
             fn = getattr(mod, it['fn'])
             params = it.get('params', {})
@@ -23,10 +40,18 @@ def main(inp, outp):
             r = run_concrete(lambda ctx: fn(ctx, **params), it.get('model') or {}, it.get('opts'))
             r['observed'] = _clean(r.get('observed', []))
             out.append(r)
+        except ItemTimeout:
+            out.append({'error': 'replay item timeout (hang?)', 'failures': []})
         except BaseException as e:  # noqa
             out.append({'error': f"{type(e).__name__}: {e}", 'failures': []})
+        finally:
+            if deadline:
+                signal.alarm(0)
     with open(outp, 'w') as f:
         json.dump(out, f, default=str)
+        f.flush()
+    sys.stdout.flush()
+    os._exit(0)  # threads left behind by a hanging scenario must not keep the replay process alive
 
 
 def _clean(obs):
